@@ -50,6 +50,10 @@ def pillar_case(rng, with_x=True):
     shape[axis] = rng.randint(1, 4 if nm < 4 else 3)
     c = {"kind": "pillar" if with_x else "allowed", "perms": perms, "axis": axis, "single": bool(rng.randint(0, 1)),
          "metric": rng.choice(["euclidean", "permittivity_differences_plus_average_permittivity"]), "shape": shape}
+    order = list(range(nm))
+    if rng.random() < 0.6:      # materials dict not in ascending-permittivity insertion order (e.g. {"Silicon": ..., "Air": ...})
+        rng.shuffle(order)
+        c["dict_order"] = order
     if with_x:
         lo, hi = 1 / perms[-1] - 0.05, 1 / perms[0] + 0.05
         # multiples of 1/1024: exact in float and short rationals
